@@ -430,7 +430,7 @@ func (ex *Exec) sliceOp(fr *frame, instr *ssa.Slice) value {
 		if x == nil {
 			ex.oblige("nil", "slice of nil array pointer", fr, instr.Pos(), b.False)
 		}
-		ln = len((*x).(array))
+		ln = len(ex.asArray(fr, *x))
 		cp = ln
 	default:
 		panic(ex.unsupported(fmt.Sprintf("slice of %T", x)))
@@ -470,7 +470,7 @@ func (ex *Exec) sliceOp(fr *frame, instr *ssa.Slice) value {
 		}
 		return x[l:h]
 	case *value:
-		a := (*x).(array)
+		a := ex.asArray(fr, *x)
 		if m >= 0 {
 			return []value(a)[l:h:m]
 		}
@@ -784,7 +784,7 @@ func (ex *Exec) callBuiltin(fr *frame, pos token.Pos, fn *ssa.Builtin, args []va
 		case array:
 			return b.I64(int64(len(x)))
 		case *value:
-			return b.I64(int64(len((*x).(array))))
+			return b.I64(int64(len(ex.asArray(fr, *x))))
 		case *MapV:
 			return b.I64(int64(x.size()))
 		}
@@ -796,7 +796,7 @@ func (ex *Exec) callBuiltin(fr *frame, pos token.Pos, fn *ssa.Builtin, args []va
 		case array:
 			return b.I64(int64(len(x)))
 		case *value:
-			return b.I64(int64(len((*x).(array))))
+			return b.I64(int64(len(ex.asArray(fr, *x))))
 		}
 		panic(ex.unsupported(fmt.Sprintf("cap(%T)", args[0])))
 	case "append":
